@@ -28,6 +28,7 @@ Inductive case :=
 | CAllFrames (v : impl) (id : Z) (s : str)                      (* translate for (plus, minus) x start 0,1,2 *)
 | CPinnedFrames (id : Z) (s : str)                              (* same, pre-repair model [translate_pinned] *)
 | CRc2 (v : impl) (m : moltype) (s : str)                       (* rc(rc(s)) *)
+| CAppFrames (id : Z) (s : str) (allow_rc : bool)               (* app.translate.translate_frames *)
 | CGetTrans (fixed fd : bool) (kind : Z) (id : Z) (seqs : list str)  (* all 8 (incomplete_ok, include_stop, trim_stop);
                                                                      fixed = with / without the repairs C12-2, C12-3;
                                                                      fd = with / without the repair C12-4 *)
@@ -81,6 +82,7 @@ Definition run_case (c : case) : val :=
   | CPinnedFrames id s =>
       VL (flat_map (fun mn => map (fun st => VS (translate_pinned (code_aa New id) s st mn)) [0; 1; 2]) [false; true])
   | CRc2 v m s => vres VS (bind (rc v m s) (rc v m))
+  | CAppFrames id s allow_rc => vres vstrs (translate_frames (code_aa Old id) DNA s allow_rc)
   | CPinnedTranslate id s start minus => VS (translate_pinned (code_aa New id) s start minus)
   | CTranslateV fm fd id s start minus => VS (translate_w fm fd (code_aa New id) s start minus)
   | CFramesV fm fd id s =>
